@@ -106,6 +106,7 @@ class Graph:
         vf.ondemand = self._ondemand_real
         self.ondemand_applied = 0
         self.ondemand_failed = 0
+        self.ondemand_retried = 0
 
     def _ondemand_real(self, mid):
         if mid in self._od_real or self._cur is None:
@@ -137,6 +138,12 @@ class Graph:
                     self._od_log.append("refused")
                     return
                 self.ondemand_failed += 1
+                if ms["mid"] % 3:
+                    # somebody calls the function while it cannot be built: one more failed attempt before the repair
+                    try:
+                        n.ov(0)
+                    except Exception:  # noqa: BLE001
+                        self.ondemand_retried += 1
             try:
                 tgt.ov.unregister(bad)
             except Exception:  # noqa: BLE001
